@@ -220,6 +220,64 @@ func TestC18(t *testing.T) {
 		r.Exhaustive("cells", !r.Replaying())
 	}
 
+	// shared storage: one list value assigned to several list properties of `to` and of `from` (a caller that built its recipients once).
+	// A merge that writes new members into an old backing array changes the other properties that share it.
+	if r.WantLayer("aliasing", true) {
+		total, done := 0, 0
+		for _, gt := range c18Types {
+			st := vocab.StructType(gt)
+			var lists []vocab.Field
+			for _, f := range vocab.Fields(st) {
+				if f.Kind == vocab.KItems {
+					lists = append(lists, f)
+				}
+			}
+			for i := range lists {
+				for j := range lists {
+					if i == j {
+						continue
+					}
+					for _, fromShares := range []bool{false, true} {
+						total++
+						cell := fmt.Sprintf("%s replaced=%s sharing=%s from-shares=%v", gt, lists[i].Name, lists[j].Name, fromShares)
+						if !r.WantCell(cell) {
+							continue
+						}
+						done++
+						id := ap.IRI("https://example.com/things/1")
+						to, tv := mk(gt, id, vocab.DefaultType[gt])
+						from, fv := mk(gt, id, vocab.DefaultType[gt])
+						shared := make(ap.ItemCollection, 2, 4)
+						shared[0], shared[1] = ap.IRI("https://example.com/shared/a"), ap.IRI("https://example.com/shared/b")
+						tv.Field(lists[i].Index).Set(reflect.ValueOf(shared)) // replaced by from's value
+						tv.Field(lists[j].Index).Set(reflect.ValueOf(shared)) // not mentioned by from: must keep a, b
+						fv.Field(lists[i].Index).Set(reflect.ValueOf(ap.ItemCollection{ap.IRI("https://example.com/new/c")}))
+						if fromShares {
+							// from holds the shared list under a third property when there is one, else under the sharing one
+							k := (j + 1) % len(lists)
+							if k == i {
+								k = (k + 1) % len(lists)
+							}
+							fv.Field(lists[k].Index).Set(reflect.ValueOf(shared))
+						}
+						canon := cell + " " + vocab.Dump(to) + " <- " + vocab.Dump(from)
+						ds, outcome := c18Check(to, from, "", false)
+						if outcome == "error" {
+							ds = append(ds, keyed{"copy unexpected-refusal " + gt, "CopyItemProperties refused two " + gt + " values with the same id and type: " + c18LastErr})
+						}
+						r.Case(canon, true, "aliasing type="+gt)
+						if done%97 == 0 {
+							r.Sample(canon, map[string]interface{}{"layer": "aliasing", "cell": cell})
+						}
+						reportAll(r, "aliasing", cell, ds, canon)
+					}
+				}
+			}
+		}
+		r.Cells(total, done)
+		r.Exhaustive("aliasing", !r.Replaying())
+	}
+
 	if r.WantLayer("refusals", true) {
 		type rc struct {
 			name, reason string
